@@ -357,32 +357,17 @@ theorem C06_planned_left_alone (c : Cfg) (h : St) (m : Bool) (w : WState) (faile
     exact absurd hp (by simpa [this] using hx.2)
   · simp
 
-/-! ### Lost processes in CONCILIATION (known finding `C06:lost-not-handled:conciliation`) -/
+/-! ### Lost processes are handled in every working state -/
 
-/-- the statement: in every working state, the Master hands every lost process that has no planned job to the handler -/
-def C06_lost_handled_statement : Prop :=
-  ∀ (c : Cfg) (h : St) (w : WState) (failed : List (Nat × Bool)) (withJob busy : List Nat),
-    leftToHandler failed withJob ≠ [] →
-    step c h (.lost true w failed withJob busy)
-      = trigger c ((leftToHandler failed withJob).foldl (fun h x => addDefault c h x.1 x.2) h) busy
-
-/-- `ConciliationState._master_next` does not call `_WorkingState._master_next`: the processes lost while the Master is in
-    CONCILIATION are dropped (the next `_check_instances` overwrites `lost_processes`).  Witness replayed on the
-    implementation by `corpus/C06/kf_lost_in_conciliation.json`. -/
-theorem C06_lost_handled_refuted : ¬ C06_lost_handled_statement := by
-  intro hs
-  have := hs { app := fun _ => 0, seq := fun _ => true, strat := fun _ => .stopApplication } {} .conciliation
-    [(0, false)] [] [] (by decide)
-  revert this
-  decide
-
-/-- the same statement holds in DISTRIBUTION and OPERATION -/
-theorem C06_lost_handled_partial (c : Cfg) (h : St) (w : WState) (hw : w ≠ .conciliation) (failed : List (Nat × Bool))
-    (withJob busy : List Nat) (hne : leftToHandler failed withJob ≠ []) :
+/-- **Lost handled.**  In every working state (DISTRIBUTION, OPERATION, CONCILIATION) the Master hands every lost process
+    that has no planned job to the handler and triggers it.  (Was refuted for CONCILIATION before `/repo` 896a4df:
+    `ConciliationState._master_next` did not call `_WorkingState._master_next`; regression case
+    `corpus/C06/kf_lost_in_conciliation.json`.) -/
+theorem C06_lost_handled (c : Cfg) (h : St) (w : WState) (failed : List (Nat × Bool)) (withJob busy : List Nat)
+    (hne : leftToHandler failed withJob ≠ []) :
     step c h (.lost true w failed withJob busy)
       = trigger c ((leftToHandler failed withJob).foldl (fun h x => addDefault c h x.1 x.2) h) busy := by
-  simp only [step, handsLost, Bool.true_and, decide_eq_true_eq]
-  rw [if_pos hw]
+  simp only [step, handsLost, if_true]
 
 /-! ### Non-vacuity -/
 
@@ -405,6 +390,10 @@ example : triggers exCfg (.lost true .operation [(7, true), (6, true)] [6] [0]) 
 example : top exCfg (pendAfter exCfg (exOps.take 4)) 0 = some .restartApplication
     ∧ top exCfg (pendAfter exCfg (exOps.take 4)) 1 = some .restartApplication
     ∧ top exCfg (pendAfter exCfg (exOps.take 4)) 7 = none := by decide
+-- a loss seen by the Master in CONCILIATION is handled like in OPERATION
+example : step exCfg {} (.lost true .conciliation [(7, true)] [] []) = ({}, [.restartApp 2])
+    ∧ step exCfg {} (.lost true .operation [(7, true)] [] []) = ({}, [.restartApp 2])
+    ∧ step exCfg {} (.lost false .conciliation [(7, true)] [] []) = ({}, []) := by decide
 -- promotion: process 4 (start sequence) with RESTART_PROCESS in an application left stopped
 example : promoted { exCfg with strat := fun _ => .restartProcess } 4 true = true
     ∧ (step { exCfg with strat := fun _ => .restartProcess } {} (.addDefault 4 true)).1 = { restartApps := [1] } := by decide
